@@ -82,6 +82,8 @@ struct PendingFunctionDef<'ast> {
     params: ParamListRef<'ast>,
     body: BlockRef<'ast>,
     scope_index: usize,
+    /// How many of the block's own `make` statements precede this definition.
+    block_names_before: usize,
 }
 
 /// An arena-allocated semantic analyzer.
@@ -462,8 +464,14 @@ impl<'ast, 'res> Resolver<'ast, 'res> {
 
     fn predeclare_block_functions(&mut self, block: BlockRef<'ast>) {
         let mut pending = Vec::new_in(self.arena);
+        // Variables this block declares before a definition are what the function body
+        // sees, but they are not in scope yet while return types are inferred here.
+        let mut block_names = Vec::new_in(self.arena);
 
         for stmt in block.stmts {
+            if let Stmt::Assign { var, .. } = stmt {
+                block_names.push(*var);
+            }
             let Stmt::FunctionDef { name, name_span, params, body, .. } = stmt else {
                 continue;
             };
@@ -564,7 +572,14 @@ impl<'ast, 'res> Resolver<'ast, 'res> {
                 name_span,
                 return_type: ValueType::Dynamic,
             });
-            pending.push(PendingFunctionDef { name, name_span, params, body, scope_index });
+            pending.push(PendingFunctionDef {
+                name,
+                name_span,
+                params,
+                body,
+                scope_index,
+                block_names_before: block_names.len(),
+            });
         }
 
         for _ in 0..pending.len() {
@@ -573,6 +588,8 @@ impl<'ast, 'res> Resolver<'ast, 'res> {
                 self.inference_shadow.clear();
                 self.inference_shadow_fns.clear();
                 self.inference_shadow.extend(pending_def.params.params.iter().copied());
+                self.inference_shadow
+                    .extend(block_names[..pending_def.block_names_before].iter().copied());
                 Self::collect_declared_names(
                     pending_def.body,
                     &mut self.inference_shadow,
